@@ -219,6 +219,18 @@ def bad_values(draw, t):
                 good = [b for chunk in good for b in chunk]
             return good, "array.too-few"
         n = ln if isinstance(ln, int) else draw(st.integers(1, 4))
+        if el["k"] in ("SINT", "USINT", "INT", "UINT", "DINT") and draw(st.integers(0, 2)) == 0:
+            # the same out-of-range element, handed over in another kind of sequence (bytes / bytearray / tuple)
+            lo, hi = R.INT_RANGE[el["k"]]
+            cont = draw(st.sampled_from(["bytes", "bytearray", "tuple"]))
+            if cont == "tuple":
+                vals = [0] * n
+                vals[draw(st.integers(0, n - 1))] = hi + 1
+                return {"__container__": "tuple", "items": vals}, "array.el.range.tuple"
+            if hi < 255:   # only SINT has byte values outside its range
+                vals = [1] * n
+                vals[draw(st.integers(0, n - 1))] = draw(st.integers(hi + 1, 255))
+                return {"__container__": cont, "items": vals}, "array.el.range." + cont
         if mult > 1:
             # a bit-string array whose total length is not a whole number of elements
             return [False] * (n * mult + draw(st.integers(1, mult - 1))) if not isinstance(ln, int) else [False] * (n * mult - 1), "array.bitlen"
@@ -257,7 +269,9 @@ def bad_values(draw, t):
 
 
 def _materialise(t, v):
-    """bad struct dict marker -> real dict with None keys"""
+    """bad struct dict marker -> real dict with None keys; container marker -> bytes / bytearray / tuple"""
+    if isinstance(v, dict) and "__container__" in v:
+        return {"bytes": bytes, "bytearray": bytearray, "tuple": tuple}[v["__container__"]](v["items"])
     if isinstance(v, dict) and "__dict__" in v:
         out = {}
         for (kk, vv), (name, mt) in zip(v["__dict__"], [m for m in t["members"]]):
@@ -352,6 +366,7 @@ def plan(tier):
     for i in range(4 if tier == "quick" else 16):
         jobs.append({"part": "atheris", "runs": 60000 if tier == "quick" else 1500000, "shard": i})
     jobs.append({"part": "unbound"})
+    jobs.append({"part": "containers"})
     return jobs
 
 
@@ -390,6 +405,30 @@ def run_job(ctx, job):
             return discs, True, classes_of(case["t"]) if case["t"]["k"] != "structtag" else ["template"]
 
         hyp_search(ctx, "decode", cases(), check_case, job["examples"])
+    elif part == "containers":
+        # out-of-range integers handed over in every kind of sequence (list / tuple / bytes / bytearray), for every integer element
+        # type and array kind, bare and as a structure member
+        for name in C.ELEM_INTS:
+            lo, hi = R.INT_RANGE[name]
+            for ln in (3, None, {"lt": "USINT"}):
+                for cont in ("list", "tuple", "bytes", "bytearray"):
+                    for pos in (0, 2):
+                        bad = hi + 1
+                        if cont in ("bytes", "bytearray"):
+                            if hi >= 255:
+                                continue
+                            bad = 200
+                        items = [1, 2, 3]
+                        items[pos] = bad
+                        arr = T("array", len=ln, el=T(name), via="factory")
+                        for t, mk in ((arr, lambda x: x), (T("struct", members=[["a", T("UINT")], ["b", arr]]), lambda x: [7, x])):
+                            v = mk({"__container__": cont, "items": items} if cont != "list" else items)
+                            if isinstance(v, list) and isinstance(v[-1], dict):
+                                v = [v[0], _materialise(arr, v[1])]
+                            discs = check_encode_bad(t, v, f"array.el.range.{cont}")
+                            ctx.case(("cont", name, str(ln), cont, pos, t["k"]), True, ["encode-bad", "bad.container"])
+                            for d in discs:
+                                ctx.violation(d, "encode", {"t": t, "v": v if not isinstance(v, (bytes, bytearray, tuple)) else list(v), "label": f"array.el.range.{cont}"})
     elif part == "unbound":
         for name in ["SINT", "INT", "DINT", "LINT", "REAL", "LREAL", "BYTE", "WORD", "DWORD", "LWORD", "BOOL"]:
             el = T(name)
